@@ -113,6 +113,18 @@ def fixed_scripts(quick=True):
     # an arena that only ever handed out dynamic (> 2048 byte) blocks, then hard reset / destruction
     s.append({"c": "arena", "arena": [4096, 0], "ops": [["reusable", 4303], ["reset", "hard"], ["reusable", 3000], ["reusable", 100], ["reset", "hard"]]})
     s.append({"c": "arena", "arena": [1024, 0], "ops": [["rzeroed", 2049], ["reusable", 9000], ["free", 1], ["reset", "soft"], ["reusable", 2100]]})
+    # a heap request that FAILS in the middle of an allocation: the current block is filled so that every leftover size
+    # class (< 16, 16, 24, 32 ... 2040 bytes) remains, then a request that does not fit is made while the heap refuses the
+    # new block (reusable / zeroed reusable / one-shot / dup), then one-shot and reusable blocks of every slot size
+    # are allocated: all of them must stay pairwise disjoint and outside the unallocated tail of the block
+    slots = [16, 32, 64, 128, 256, 512, 1024, 2048]
+    after = [["oneshot", 16], ["oneshot", 8]] + [["reusable", z] for z in slots] + [["oneshot", 16], ["rzeroed", 24], ["zeroed", 32],
+             ["reusable", 16], ["free", 1], ["reusable", 10], ["reusable", 40], ["dup", 20, 1]]
+    for ar in ([4096, 0], [1024, 4096]):
+        for L in (0, 8, 16, 24, 32, 40, 48, 56, 64, 96, 128, 136, 256, 504, 512, 1000, 1024, 2040):
+            req = next(z for z in slots if z > L)
+            for kind in (["reusable", req, 1], ["rzeroed", max(req - 7, 1), 1], ["oneshot", ((L // 8) + 1) * 8, 1], ["dup", L + 1, 0, 1]):
+                s.append({"c": "arena", "arena": ar, "ops": [["reusable", 16], ["leftover", L], kind] + after})
     # hash table arithmetic: natural growth up to the 15859-bucket row with driver-chosen hash codes (multiples of every
     # bucket count and their neighbours, inserted / looked up / removed at every level), and every row of the prime
     # table whose bucket array fits the tier's memory budget entered through _rehash(row); hash = key and hash = 2^32-1-key
